@@ -28,17 +28,6 @@ MAXVIOL = 6
 LEANCHECKER_MODULES = ["FsProofs.C02"]
 
 
-def load_additions(rep):
-    import json
-
-    path = os.path.join(vlib.VERIF, "findings", "known_findings_additions.json")
-    if os.path.exists(path):
-        have = {f["signature"] for f in rep.open_findings}
-        for f in json.load(open(path)):
-            if f.get("property") == rep.prop_id and f["signature"] not in have:
-                rep.open_findings.append(f)
-
-
 # ----------------------------------------------------------------------------- sources / sinks
 
 
@@ -568,7 +557,6 @@ def check_text(rep, B):
 def run(rep, tier, seed, deep=False):
     drv = vlib.Driver()
     rng = vlib.rng_for(seed, "c02")
-    load_additions(rep)
     quick = tier == "quick"
     chunks = [1, 2, 7, 4096, 65536] + ([] if quick else [1024 * 1024])
     rep.rule = (
@@ -604,7 +592,6 @@ def run(rep, tier, seed, deep=False):
 
 def replay(rep, case):
     vlib.repo_on_path()
-    load_additions(rep)
     c = case["case"]
     B = Backends()
     try:
